@@ -9,7 +9,7 @@ PROPS = {"C19": dict(
           "directories, dot-dot / %2e / %2f / %5c / double-slash / NUL traversal, symlinks, decoys, wrong / other / upper-case / port / absolute-form hosts, prefix confusion, "
           "witness and mirror origin segments known / unknown / encoded, byte-level mutations, query strings, Range, HEAD and other methods); "
           "non-trivial = a traversal / encoding / symlink / decoy / host / prefix / mutation / non-canonical / directory attempt, or a layout path of a partial, names or mirror tile; "
-          "distinct = method + exact target bytes + host + extra headers; plus whole-log reads by an unmodified sunlight.Client; also: in-root symlinks to directories as decoys; files at large-index layout paths (two and three x-groups)"),
+          "distinct = method + exact target bytes + host + extra headers; plus whole-log reads by an unmodified sunlight.Client; also: in-root symlinks to directories as decoys; files at large-index layout paths (two and three x-groups); percent-encoded spellings of real tile paths: an answer 200 with the named object must carry the prescribed metadata"),
     assumptions=["the harness' own percent-decoding and longest-prefix routing decide which configured directory a request belongs to",
                  "net/http's response parser is trusted to frame the responses of the binary",
                  "directory content is rendered by the independent reference model (vfref), so 'the file the path names' is known without asking the server"],
